@@ -316,7 +316,7 @@ Qed.
 Theorem step_inv st o : Inv st -> Inv (step st o).
 Proof.
   destruct st as [h bb lg]. unfold Inv; simpl. intros I.
-  destruct o as [d e|d e|d e|d e|d e|fs e| |k i c|k d e|k d e]; simpl.
+  destruct o as [d e|d e|d e|d e|d e|fs e| |k i c|k d e|k d e|k e]; simpl.
   - destruct (bufferize1 h bb false d e) as [[h' bb'] x] eqn:B. simpl.
     apply (bufferize1_inv _ _ _ _ _ _ _ _ _ I B).
   - destruct (bufferize1 h bb true d e) as [[h' bb'] x] eqn:B. simpl.
@@ -439,6 +439,11 @@ Proof.
       destruct CASES as [(C1 & C2 & C3)|(C1 & C2 & C3)]; simpl in *.
       * rewrite C1, C2, C3. exact D.
       * left. rewrite C1. lia.
+  - (* a handed-out value is fed back into the buffer: a fresh copy is handed out *)
+    destruct (nth_error lg k) as [x|] eqn:Hk; [|exact I].
+    destruct (hd_live x) eqn:Lx; [|exact I].
+    destruct (bufferize1 h bb (hd_str x) (hd_want x) e) as [[h' bb'] y] eqn:B. simpl.
+    apply (bufferize1_inv _ _ _ _ _ _ _ _ _ I B).
 Qed.
 
 Lemma init_inv size : Inv (init size).
@@ -526,7 +531,7 @@ Proof.
   intros Hk T NR. destruct st as [h bb lg]; simpl in *.
   assert (APP : forall xs, nth_error (lg ++ xs) k = Some x)
     by (intros xs; rewrite nth_error_app1; auto; apply nth_error_Some; congruence).
-  destruct o as [d e|d e|d e|d e|d e|fs e| |k' i c|k' d e|k' d e]; simpl in *;
+  destruct o as [d e|d e|d e|d e|d e|fs e| |k' i c|k' d e|k' d e|k' e]; simpl in *;
     try congruence.
   - destruct (bufferize1 tight h bb false d e) as [[? ?] ?]; simpl; eauto.
   - destruct (bufferize1 tight h bb true d e) as [[? ?] ?]; simpl; eauto.
@@ -546,6 +551,9 @@ Proof.
     destruct (nth_error lg k') as [y|]; simpl; eauto.
     destruct (_ && _); simpl; eauto. destruct (append _ _ _ _); simpl.
     rewrite nth_error_upd_nth_neq by auto. eauto.
+  - destruct (nth_error lg k') as [y|]; simpl; eauto.
+    destruct (hd_live y); simpl; eauto.
+    destruct (bufferize1 tight h bb (hd_str y) (hd_want y) e) as [[? ?] ?]; simpl; eauto.
 Qed.
 
 
